@@ -339,6 +339,10 @@ impl World {
         Val::U
       }
       "bpeek" => Behavior::<Val, Val>::peek(&self.env.behaviors[(s.a - 1) as usize]),
+      "stq" => {
+        let st = self.statuses.lock().unwrap()[(s.a - 1) as usize].clone();
+        Val::I(if st.is_completed() { 1 } else if st.error_occur() { 2 } else { 0 })
+      }
       "stwait" => {
         let st = self.statuses.lock().unwrap()[(s.a - 1) as usize].clone();
         rxrust::ops::complete_status::CompleteStatus::wait_for_end(st);
